@@ -83,6 +83,22 @@ func detWorkload(t *sim.Tape) (ops []detOp, desc string) {
 		g, err := afm.Read(bytes.NewReader(afmBytes))
 		return dump.Err(err) + " " + dump.Metrics(g)
 	}})
+	seacFile, seacDesc := gen.SeacFont(t)
+	desc += "; " + seacDesc
+	if seacFile != nil {
+		ops = append(ops, detOp{"type1.Read(seac font)", func() string {
+			g, err := type1.Read(bytes.NewReader(seacFile))
+			return dump.Err(err) + " " + dump.Font(g)
+		}})
+	}
+	odd := gen.GenCMapMisuse(t)
+	ops = append(ops, detOp{"ReadCMap(misused operators)", func() string {
+		d, err := postscript.ReadCMap(bytes.NewReader(odd))
+		if d == nil {
+			return dump.Err(err) + " nil"
+		}
+		return dump.Err(err) + " " + dump.Object(d)
+	}})
 	ops = append(ops, detOp{"ReadCMap(multi)", func() string {
 		d, err := postscript.ReadCMap(bytes.NewReader(cmapFile))
 		if d == nil {
